@@ -115,9 +115,16 @@ OnlyPropsChanged(t, u, o) ==
 
 Fails(name, ok) == IF ok THEN {} ELSE {name}
 
+\* C02 for the vector-tile operations: what the box stream delivers for the coordinate is what the lookup returns -- present or
+\* absent alike, failing or not alike, and (where the harness logged a hash of the delivered bytes) the identical bytes
+HashOf(o) == IF "h" \in DOMAIN o THEN o.h ELSE -1
+StreamEqLookup(r) == r.stream.exists = r.lookup.exists /\ r.stream.ok = r.lookup.ok /\ r.stream.tile = r.lookup.tile
+                     /\ HashOf(r.stream) = HashOf(r.lookup)
+
 (* judging observed operations.  `out' = semantic view of the delivered tile as decoded by the INDEPENDENT decoder *)
 MergeFails(r) ==
     LET ts == r.present IN       \* the source tiles that exist at this coordinate, in source order
+    Fails("vt_stream_eq_lookup", StreamEqLookup(r)) \cup
     IF Len(ts) = 0
     THEN Fails("merge_exists", r.lookup.exists = 0 /\ r.stream.exists = 0)
     ELSE Fails("merge_exists", r.lookup.exists = 1 /\ r.stream.exists = 1) \cup
@@ -130,6 +137,7 @@ MergeFails(r) ==
 
 UpdateFails(r) ==
     LET want == Updated(r.tile, r.table, r.opts) IN
+    Fails("vt_stream_eq_lookup", StreamEqLookup(r)) \cup
     Fails("update_decodes", r.lookup.ok = 1 /\ r.stream.ok = 1) \cup
     (IF r.lookup.ok = 0 \/ r.stream.ok = 0 THEN {} ELSE
      Fails("update_result", UpdateOk(r.tile, r.lookup.tile, r.table, r.opts)) \cup
